@@ -106,8 +106,15 @@ func (s *Solver) check(asserts []*Term, negLast bool, vals []*Term) (string, map
 		}
 	}
 	last := ""
-	try := func(i int, to time.Duration) (string, map[*Term]string, bool) {
+	try := func(i int, to time.Duration, final bool) (string, map[*Term]string, bool) {
 		b := s.backs[i]
+		// a back-end that keeps timing out on this job gets shorter and shorter slices (never the last resort)
+		if !final && b.penalty > 0 {
+			to = to >> uint(b.penalty)
+			if to < 2*time.Second {
+				to = 2 * time.Second
+			}
+		}
 		b.timeout = to
 		tq := time.Now()
 		r, m := b.check(body, vals)
@@ -121,6 +128,7 @@ func (s *Solver) check(asserts []*Term, negLast bool, vals []*Term) (string, map
 			if len(vals) == 0 {
 				s.cache[body] = r
 			}
+			b.penalty = 0
 			// winner moves to the front
 			for k, x := range s.order {
 				if x == i {
@@ -131,23 +139,26 @@ func (s *Solver) check(asserts []*Term, negLast bool, vals []*Term) (string, map
 			return r, m, true
 		}
 		last = r
+		if b.penalty < 5 {
+			b.penalty++
+		}
 		return r, nil, false
 	}
 	order := append([]int{}, s.order...)
 	slice := s.timeout
-	if len(order) > 1 && slice > 3*time.Second {
-		slice = 3 * time.Second
+	if len(order) > 1 && slice > 10*time.Second {
+		slice = 10 * time.Second
 	}
-	if r, m, ok := try(order[0], slice); ok {
+	if r, m, ok := try(order[0], slice, len(order) == 1); ok {
 		return r, m
 	}
 	for _, i := range order[1:] {
-		if r, m, ok := try(i, s.timeout); ok {
+		if r, m, ok := try(i, s.timeout, false); ok {
 			return r, m
 		}
 	}
 	if slice < s.timeout {
-		if r, m, ok := try(order[0], s.timeout); ok {
+		if r, m, ok := try(order[0], s.timeout, true); ok {
 			return r, m
 		}
 	}
@@ -156,6 +167,7 @@ func (s *Solver) check(asserts []*Term, negLast bool, vals []*Term) (string, map
 }
 
 type backend struct {
+	penalty int
 	argv    []string
 	cmd     *exec.Cmd
 	in      io.WriteCloser
